@@ -168,6 +168,10 @@ func ParseRtpHeader(b []byte) (h RtpHeader, err error) {
 
 	if h.Padding == 1 {
 		h.paddingLength = int(b[len(b)-1])
+		// padding(包含末尾的计数字节)不能比payload区域更长
+		if h.paddingLength > len(b)-offset {
+			return h, base.ErrRtpRtcpShortBuffer
+		}
 	}
 	return
 }
